@@ -269,6 +269,8 @@ def norm_real_sig(sig):
     sig = re.sub(r'\bpub\s*(\([^)]*\))?\s*', '', sig)
     # rule D4: Verus does not accept `_` as a parameter pattern; the contract names it `_p`
     sig = re.sub(r'([(,]\s*)_(\s*:)', r'\1_p\2', sig)
+    # rule D7: Verus does not support a `mut self` receiver; see build_fn
+    sig = re.sub(r'\(\s*mut\s+self\b', '(self', sig)
     return sig
 
 
@@ -324,6 +326,23 @@ def build_fn(key, mode, log):
 
     rw = []
     where = '%s:%s' % (c.src_file, c.fn_spec)
+    if re.search(r'\(\s*mut\s+self\b', real_sig):
+        # rule D7: `fn f(mut self, ..) { B }`  =>  `fn f(self, ..) { let mut self_ = self; B[self := self_] }`
+        mb = mask(body)
+        renamed = ''.join(body[i] for i in range(len(body)))
+        out_b, last = [], 0
+        for m_ in re.finditer(r'\bself\b', mb):
+            out_b.append(body[last:m_.start()] + 'self_')
+            last = m_.end()
+        out_b.append(body[last:])
+        body = ' let mut self_ = self;' + ''.join(out_b)
+        rw.append(dict(rule='D7', where=where, before='mut self receiver', after='let mut self_ = self; body with self renamed to self_'))
+        orig = []
+        ln = first_line
+        for ch in body:
+            orig.append(ln)
+            if ch == '\n':
+                ln += 1
     nb = strip_macro_messages(body, rw, where)
     if nb != body:
         # D2 keeps line count; rebuild origin by line
